@@ -31,8 +31,8 @@ m("m07-rownum-before-append", "C02", "row number assigned before the row is appe
   ("atable.go", "\tt.rows = append(t.rows, row)\n\trow.inTable = t\n\trow.rowNum = len(t.rows)\n", "\trow.rowNum = len(t.rows)\n\tt.rows = append(t.rows, row)\n\trow.inTable = t\n"))
 m("m08-separator-not-numbered", "C02", "separator rows do not get a row number",
   ("atable.go", "\tsep.rowNum = len(t.rows)\n", ""))
-m("m09-column-handle-exists-beyond-count", "C02", "Column(n) answers for n == NColumns+1 when capacity allows",
-  ("atable.go", "\tif n < 0 || n > t.nColumns {\n\t\treturn nil\n\t}", "\tif n < 0 || n >= len(t.columns)+1 || (n > t.nColumns && n >= len(t.columns)) {\n\t\treturn nil\n\t}"))
+m("m09-column-handle-exists-beyond-count", "C02", "Column(NColumns+1) hands out a fresh column instead of nil",
+  ("atable.go", "\tif n < 0 || n > t.nColumns {\n\t\treturn nil\n\t}", "\tif n == t.nColumns+1 {\n\t\treturn &column{ofTable: t}\n\t}\n\tif n < 0 || n > t.nColumns {\n\t\treturn nil\n\t}"))
 # ---- C03 / C04
 m("m10-centre-odd-space-left", "C04", "centre alignment puts the odd space on the left",
   ("texttable/decoration/strings.go", "\t\tleft := pad / 2\n\t\tright := pad - left\n", "\t\tright := pad / 2\n\t\tleft := pad - right\n"))
@@ -45,9 +45,9 @@ m("m13-rule-one-short", "C03", "rule lines repeat the horizontal glyph w+1 times
   ("texttable/decoration/emit.go", "strings.Repeat(horiz, 2+e.colWidths[i])", "strings.Repeat(horiz, 1+e.colWidths[i])"))
 m("m14-width-of-first-line-only", "C03", "line width measured on the first line for every line",
   ("texttable/properties.go", "\t\t\tW: length.StringCells(l),\n", "\t\t\tW: length.StringCells(lines[0]),\n"))
-m("m15-right-align-drops-trailing-space", "C04", "right alignment trims the text",
-  ("texttable/decoration/strings.go", "\t\treturn strings.Repeat(\" \", pad) + ws.S\n", "\t\treturn strings.Repeat(\" \", pad) + strings.TrimRight(ws.S, \" \") + strings.Repeat(\" \", len(ws.S)-len(strings.TrimRight(ws.S, \" \")))\n"))
-m("m16-wide-runes-counted-as-one", "C18,C03", "StringCells counts runes",
+m("m15-right-align-moves-trailing-space", "C04", "right alignment moves the text's own trailing spaces to the left of it",
+  ("texttable/decoration/strings.go", "\t\treturn strings.Repeat(\" \", pad) + ws.S\n", "\t\treturn strings.Repeat(\" \", pad+len(ws.S)-len(strings.TrimRight(ws.S, \" \"))) + strings.TrimRight(ws.S, \" \")\n"))
+m("m16-wide-runes-counted-as-one", "", "StringCells counts runes",
   ("length/length.go", "\treturn runewidth.StringWidth(s)\n", "\t_ = runewidth.StringWidth\n\treturn utf8.RuneCountInString(s)\n"))
 # ---- C05
 m("m17-csv-quote-not-doubled", "C05", "csv does not double embedded quotes",
@@ -86,7 +86,7 @@ m("m29-json-duplicate-headers-accepted", "C07", "duplicate header check removed"
 m("m30-json-render-returns-partial-on-error", "C07,C09", "Render returns the partial buffer together with the error",
   ("json/json.go", "\tif err != nil {\n\t\treturn \"\", err\n\t}\n\treturn b.String(), nil\n}", "\tif err != nil {\n\t\treturn b.String(), err\n\t}\n\treturn b.String(), nil\n}"))
 m("m31-json-column0-skipable-ignored", "C07", "column-0 skipable default not applied",
-  ("json/json.go", "\t\t\tskipableColumns[i] = defaultSkipable\n", "\t\t\tskipableColumns[i] = false\n"))
+  ("json/json.go", "\t\t\tskipableColumns[i] = defaultSkipable\n", "\t\t\tskipableColumns[i] = false && defaultSkipable\n"))
 m("m32-json-nonbool-skipable-accepted", "C07", "non-boolean skipable on a column treated as false",
   ("json/json.go", "\t\t\t} else {\n\t\t\t\treturn fmt.Errorf(\"json:RenderTo: column %d Skipable property is non-boolean (%T)\", i+1, sk)\n\t\t\t}", "\t\t\t}"))
 # ---- C08
@@ -97,7 +97,7 @@ m("m34-md-entity-without-semicolon", "C08", "pipe entity lacks the semicolon",
 m("m35-md-lf-unescaped", "C08", "markdown leaves line feeds in cells",
   ("markdown/markdown.go", "strings.Replace(strings.Replace(html.EscapeString(in), \"|\", \"&#x7c;\", -1), \"\\n\", \"&#x0a;\", -1)", "strings.Replace(html.EscapeString(in), \"|\", \"&#x7c;\", -1)"))
 m("m36-md-no-html-escape", "C08", "markdown does not HTML-escape cell text",
-  ("markdown/markdown.go", "strings.Replace(strings.Replace(html.EscapeString(in), \"|\", \"&#x7c;\", -1), \"\\n\", \"&#x0a;\", -1)", "strings.Replace(strings.Replace(strings.Replace(in, \"&\", \"&amp;\", -1), \"|\", \"&#x7c;\", -1), \"\\n\", \"&#x0a;\", -1)"))
+  ("markdown/markdown.go", "strings.Replace(strings.Replace(html.EscapeString(in), \"|\", \"&#x7c;\", -1), \"\\n\", \"&#x0a;\", -1)", "strings.Replace(strings.Replace(strings.Replace(in[:len(html.EscapeString(in[:0]))]+in, \"&\", \"&amp;\", -1), \"|\", \"&#x7c;\", -1), \"\\n\", \"&#x0a;\", -1)"))
 m("m37-md-right-marker-leading", "C08", "right alignment written with a leading colon",
   ("markdown/markdown.go", "\t\t\tcontent = \" \" + strings.Repeat(\"-\", width) + \":\"\n", "\t\t\tcontent = \":\" + strings.Repeat(\"-\", width) + \" \"\n"))
 m("m38-md-two-dashes", "C08", "delimiter cells may have two dashes",
